@@ -16,6 +16,7 @@ import FM.Model.Scan
 import FM.Model.FullWrap
 import FM.Model.Transforms
 import FM.Model.Route
+import FM.Model.Placeholder
 /-
   One operation per input line, one canonical answer per output line.
 -/
@@ -179,6 +180,15 @@ def step (line : String) : String :=
             | .toFile s t b => s!"F{showArg s}>{t}:{if b then "b" else "n"}"
           String.intercalate ";" (acts.map showAct)
       | _, _, _, _ => bad
+  | ["placeholder", kinds, ps] =>
+      -- kinds: one character per piece, 't' plain text / 'a' construct
+      match decList ps with
+      | some strs =>
+        if strs.length != kinds.length then bad
+        else
+          let pieces : List FM.Piece := (kinds.toList.zip strs).map fun (k, s) => if k == 'a' then .atom s else .text s
+          encStr (extractText pieces 0) ++ "/" ++ encStr (roundTrip pieces)
+      | none => bad
   | ["interrupts", ws] => match decList ws with
       | some ws => encBool (interruptsPara ws)
       | none => bad
